@@ -34,6 +34,8 @@ class World:
         self.fetches = 0
         self.in_acquire = {}    # worker name -> nesting depth inside acquire(_proxy) of the SUPPLIED pool
         self.checkouts = 0      # connections handed out by the supplied pool
+        self.idle_closed = 0    # keep-alive connections the server closed while they sat idle in the pool
+        self.idle_allowed = True
 
     def fail(self, kind, where, detail):
         if len(self.failures) < 20:
@@ -47,9 +49,28 @@ class Server:
     def __init__(self, world):
         self.world = world
         self.buf = b''
+        self.seq = 0
+
+    def idle_close(self, conn, seq, turns):
+        """Keep-alive timeout: `turns` loop turns after the response, if no further request came on this connection
+        and no client has it checked out at that moment, the server closes it (it then sits dead in the pool)."""
+        loop = asyncio.get_event_loop()
+        if self.seq != seq or conn.server_closed or conn.client_closed:
+            return
+        if turns > 0:
+            loop.call_soon(self.idle_close, conn, seq, turns - 1)
+            return
+        for oid, obj in self.world.handed.items():
+            inner = getattr(obj, '_active_connection', None)
+            if inner is not None and inner.reader is conn.reader:
+                if self.world.owner.get(oid) is not None:
+                    return          # checked out right now: the timer is considered reset
+        self.world.idle_closed += 1
+        conn.close()
 
     def on_write(self, conn, data):
         self.buf += data
+        self.seq += 1
         loop = asyncio.get_event_loop()
         while b'\r\n\r\n' in self.buf:
             head, self.buf = self.buf.split(b'\r\n\r\n', 1)
@@ -81,10 +102,17 @@ class Server:
             else:
                 msg = (b'HTTP/1.1 200 OK\r\nContent-Length: 2\r\n' + (b'Connection: close\r\n' if close else b'')
                        + b'\r\nok')
-            def deliver(conn=conn, msg=msg, close=close):
+            idle = None
+            if not close and not (hop and hop[0] > 0) and b'idle' in path:
+                k = path.index(b'idle') + 4
+                idle = int(path[k:k + 1]) if path[k:k + 1].isdigit() else 0
+
+            def deliver(conn=conn, msg=msg, close=close, idle=idle, seq=self.seq):
                 conn.send(msg)
                 if close:
                     conn.close()
+                elif idle is not None and self.world.idle_allowed:
+                    loop.call_soon(self.idle_close, conn, seq, idle)
             loop.call_soon(deliver)
 
 
@@ -427,6 +455,7 @@ def run_case(case):
                 end_state('after every worker finished')
                 # "the next client gets a connection": one more plain fetch per origin used, no faults any more
                 net.clear_faults()
+                world.idle_allowed = False
                 origins = sorted({j[0].split('/')[0] + '//' + j[0].split('/')[2] for jobs in case['workers'] for j in jobs
                                   if 'badtunnel' not in j[0] and 'garbled' not in j[0]})
                 # origins whose tunnel can never be set up: the probe must still get its turn (and fail), not hang
@@ -455,6 +484,25 @@ def run_case(case):
                     world.fail('deadlock', 'next-client', 'a client arriving after all others finished never gets a connection; checked out: %s' % busy)
                 elif probe_errors and not world.failures:
                     world.fail('error', 'next-client', 'a client arriving after all others finished fails: %s' % probe_errors[:2])
+                if pt.done() and case['stream'] == 'session':
+                    # network truth after the last check-in (the probe's): whatever the peer closed has been swept
+                    def net_of(obj):
+                        inner = getattr(obj, '_active_connection', None)
+                        if inner is None or inner.reader is None:
+                            return None
+                        for fc in net.conns:
+                            if fc.reader is inner.reader:
+                                return fc
+                        return None
+                    for key, p in pool.host_pools.items():
+                        dead = [c for c in p.ready if net_of(c) is not None and net_of(c).server_closed]
+                        if dead:
+                            world.fail('leak', 'dead-idle-kept', '%d pooled connection(s) of %s whose peer closed long ago survive the '
+                                       'check-in sweeps (closed() says %s)' % (len(dead), key, [c.closed() for c in dead]))
+                    unclosed = [fc for fc in net.conns if fc.server_closed and not fc.client_closed]
+                    if unclosed:
+                        world.fail('leak', 'peer-closed-never-closed', '%d connection(s) closed by the peer were never close()d by the '
+                                   'client side although every client finished and check-ins followed' % len(unclosed))
             for w in workers:
                 if not w.done():
                     w.cancel()
@@ -487,6 +535,8 @@ def gen_case(rng, stream, faults=False):
             else:
                 scheme = 'http'
             path = '/w%dj%d%s' % (w, j, 'close' if rng.random() < 0.15 else '')
+            if stream == 'session' and not path.endswith('close') and rng.random() < 0.3:
+                path += 'idle%d' % rng.choice([0, 0, 1, 2, 3, 5, 8])      # keep-alive timeout of the server
             if rng.random() < 0.3:
                 # a redirect chain: n non-final hops, each closing ('c') or keeping ('k') the connection
                 path = '/hop%d%s%s' % (rng.choice([1, 1, 2, 3]), rng.choice('cck'), path)
@@ -559,6 +609,8 @@ def check(ctx, case):
         tags.append('front:connect-refused')
     if any('/hop' in j[0] for jobs in case['workers'] for j in jobs):
         tags.append('front:redirect-chain')
+    if world.idle_closed:
+        tags.append('front:server-closed-idle-connection')
     for k in ('netfaults', 'tlsfaults'):
         for kind in (case.get(k) or {}).values():
             tags.append('front:%s:%s' % (k, kind))
